@@ -1110,4 +1110,169 @@ Model gen_model(Rng& rng, const GenCfg& cfg)
     return m;
 }
 
+
+Model gen_old_model(Rng& rng)
+{
+    Model m;
+    m.old_syntax = true;
+    int next_tag = 100731;
+    auto tag = [&] { return next_tag++; };
+    auto var = [&](const std::string& text, const std::string& name, std::vector<int> tags = {}, int dims = 0) {
+        MDecl d;
+        d.kind = MDecl::VAR;
+        d.text = text;
+        d.name = name;
+        d.tags = std::move(tags);
+        d.dims = dims;
+        return d;
+    };
+    {
+        int t = tag();
+        m.gdecls.push_back(var("int gi0 := " + std::to_string(t) + ";", "gi0", {t}));
+    }
+    m.gdecls.push_back(var("clock gx0;", "gx0"));
+    m.gdecls.push_back(var("chan ch0;", "ch0"));
+    std::vector<std::string> gints{"gi0"}, gclocks{"gx0"}, gchans{"ch0"};
+    int extra = rng.range(0, 5);
+    for (int i = 0; i < extra; ++i) {
+        switch (rng.below(5)) {
+        case 0: {
+            std::string n = "gi" + std::to_string(gints.size());
+            m.gdecls.push_back(var("int " + n + ";", n));
+            gints.push_back(n);
+            break;
+        }
+        case 1: {
+            int t = tag();
+            std::string n = "gc" + std::to_string(i);
+            m.gdecls.push_back(var("const " + n + " " + std::to_string(t) + ";", n, {t}));
+            break;
+        }
+        case 2: {
+            std::string n = "arr" + std::to_string(i);
+            m.gdecls.push_back(var("int " + n + "[4];", n, {}, 1));
+            break;
+        }
+        case 3: {
+            std::string n = "gx" + std::to_string(gclocks.size());
+            m.gdecls.push_back(var("clock " + n + ";", n));
+            gclocks.push_back(n);
+            break;
+        }
+        default: {
+            std::string n = "ch" + std::to_string(gchans.size());
+            m.gdecls.push_back(var("chan " + n + ";", n));
+            gchans.push_back(n);
+            break;
+        }
+        }
+    }
+    const int nt = rng.range(1, 3);
+    int pn = 0;
+    for (int ti = 0; ti < nt; ++ti) {
+        MTempl t;
+        t.name = "T" + std::to_string(ti);
+        std::vector<std::string> ints = gints, clocks = gclocks, chans = gchans;
+        const int np = rng.below(4);
+        for (int k = 0; k < np; ++k) {
+            MParam p;
+            switch (rng.below(4)) {
+            case 0: p.name = "pa" + std::to_string(k); p.text = "int " + p.name; p.byref = true; p.base = 'i'; ints.push_back(p.name); break;
+            case 1: p.name = "pc" + std::to_string(k); p.text = "const " + p.name; p.byref = false; p.base = 'k'; break;
+            case 2: p.name = "px" + std::to_string(k); p.text = "clock " + p.name; p.byref = true; p.base = 'x'; clocks.push_back(p.name); break;
+            default: p.name = "pch" + std::to_string(k); p.text = "chan " + p.name; p.byref = true; p.base = 'c'; chans.push_back(p.name); break;
+            }
+            t.params.push_back(p);
+        }
+        {
+            std::string n = "x" + std::to_string(ti);
+            t.decls.push_back(var("clock " + n + ";", n));
+            clocks.push_back(n);
+            if (rng.chance(0.5)) {
+                int tg = tag();
+                std::string li = "li" + std::to_string(ti);
+                t.decls.push_back(var("int " + li + " := " + std::to_string(tg) + ";", li, {tg}));
+                ints.push_back(li);
+            }
+        }
+        auto conj = [&](Label& l, int n, bool upper_only) {
+            for (int i = 0; i < n; ++i) {
+                int tg = tag();
+                std::string atom;
+                if (upper_only || rng.chance(0.5))
+                    atom = rng.pick(clocks) + (upper_only ? (rng.chance(0.5) ? " <= " : " < ") : (rng.chance(0.5) ? " >= " : " <= ")) + std::to_string(tg);
+                else
+                    atom = rng.pick(ints) + (rng.chance(0.5) ? " < " : " == ") + std::to_string(tg);
+                l.text += (i ? ", " : "") + atom;  // the old syntax writes a conjunction as a comma-separated list
+                l.tags.push_back(tg);
+            }
+        };
+        const int nl = rng.range(1, 4);
+        for (int i = 0; i < nl; ++i) {
+            MLoc l;
+            l.id = "id" + std::to_string(ti * 100 + i);
+            if (!rng.chance(0.2))
+                l.name = "L" + std::to_string(i);
+            if (rng.chance(0.5))
+                conj(l.inv, rng.range(1, 2), true);
+            int f = rng.below(8);
+            l.urgent = f == 0;
+            l.committed = f == 1;
+            t.locs.push_back(l);
+        }
+        t.init = rng.below((uint32_t)nl);
+        const int ne = rng.below(6);
+        for (int i = 0; i < ne; ++i) {
+            MEdge e;
+            e.src = rng.below((uint32_t)nl);
+            e.dst = rng.below((uint32_t)nl);
+            if (rng.chance(0.6))
+                conj(e.guard, rng.range(1, 3), false);
+            if (rng.chance(0.4)) {
+                e.sync.text = rng.pick(chans) + (rng.chance(0.5) ? "!" : "?");
+            }
+            if (rng.chance(0.6)) {
+                int n = rng.range(1, 2);
+                for (int k = 0; k < n; ++k) {
+                    int tg = tag();
+                    e.assign.text += std::string{k ? ", " : ""} + rng.pick(ints) + " := " + std::to_string(tg) + (rng.chance(0.3) ? " + 1" : "");
+                    e.assign.tags.push_back(tg);
+                }
+                if (rng.chance(0.3))
+                    e.assign.text += ", " + rng.pick(clocks) + " := 0";
+            }
+            t.edges.push_back(e);
+        }
+        // keep edges with the same source together now and then, so that the XTA rendering chains them
+        m.templs.push_back(t);
+        // instantiate
+        const int ninst = t.params.empty() && rng.chance(0.5) ? 0 : rng.range(1, 2);
+        if (ninst == 0)
+            m.system.push_back(t.name);
+        for (int k = 0; k < ninst; ++k) {
+            MInst in;
+            in.name = "P" + std::to_string(pn++);
+            in.templ = t.name;
+            for (auto& p : t.params) {
+                MArg a;
+                if (p.base == 'i')
+                    a.text = a.ident = rng.pick(gints);
+                else if (p.base == 'k') {
+                    a.tag = tag();
+                    a.text = std::to_string(a.tag);
+                } else if (p.base == 'x')
+                    a.text = a.ident = rng.pick(gclocks);
+                else
+                    a.text = a.ident = rng.pick(gchans);
+                in.args.push_back(a);
+            }
+            m.insts.push_back(in);
+            m.system.push_back(in.name);
+        }
+    }
+    for (size_t i = 1; i < m.system.size(); ++i)
+        m.prio_lt.push_back(false);
+    return m;
+}
+
 }  // namespace sim
